@@ -18,6 +18,17 @@ false alarms, never hide a write -- within the stated trusted assumptions:
 
 The dynamic part of harness/props/c09.py cross-validates T1-T4 on every run (a write observed
 dynamically on an entry point the IR declares safe is a correspondence failure).
+
+Second output (round 3, sub-claim (b) "a cold refit leaves the state of a fresh estimator"): the same
+abstract interpretation also records, per method of a class, a STRUCTURED attribute-state program
+(coq/Model/Refit.v: sequence / branch / loop / inlined call / return / raise / break / continue / try,
+reads, assignments, del and guarded del of instance attributes of `self` and of the objects it creates),
+see `refit_program`, the `s_*` helpers of Interp and `refit_coq`.  Trusted in addition:
+
+  T5  control flow is kept, data is abstracted (every value / decision is a function of what the call
+      has seen); an in-place update through a reference loaded from an attribute (`R.sa`) is a read + an
+      assignment of that attribute; `_validate_data(reset=...)`, `check_is_fitted`, `cached_property`
+      are summarised; random_state objects are excluded (T3).
 """
 import ast
 import os
@@ -32,8 +43,9 @@ class K:                      # known Python constant
 
 
 class R:                      # reference held in IR variable `var`
-    def __init__(self, var, obj=None, cls=None, kind=None):
+    def __init__(self, var, obj=None, cls=None, kind=None, sa=frozenset()):
         self.var, self.obj, self.cls, self.kind = var, obj, cls, kind
+        self.sa = sa          # attribute keys ("self.X_selected_") whose object this reference may be (a view of)
 
     def __repr__(self):
         return "R(%s%s)" % (self.var, "," + self.obj if self.obj else "")
@@ -82,10 +94,14 @@ class ClassInfo:
     def __init__(self, name, mod, node):
         self.name, self.mod, self.node = name, mod, node
         self.bases = []       # ('int', ClassInfo) | ('lib', dotted)
-        self.methods, self.props = {}, {}
+        self.methods, self.props, self.cprops = {}, {}, {}
         for b in node.body:
             if isinstance(b, ast.FunctionDef):
-                if any(isinstance(d, ast.Name) and d.id == "property" for d in b.decorator_list):
+                decos = {d.id if isinstance(d, ast.Name) else d.attr if isinstance(d, ast.Attribute) else "?"
+                         for d in b.decorator_list}
+                if "cached_property" in decos:
+                    self.cprops[b.name] = b       # value cached in the instance dictionary under its own name
+                elif any(isinstance(d, ast.Name) and d.id == "property" for d in b.decorator_list):
                     self.props[b.name] = b
                 else:
                     self.methods[b.name] = b
@@ -304,6 +320,12 @@ class Index:
                 return c.props[name], c
         return None
 
+    def find_cprop(self, ci, name):
+        for kind, c in self.mro(ci):
+            if kind == "int" and name in c.cprops:
+                return c.cprops[name], c
+        return None
+
     def ctor_params(self, ci):
         names = []
         for kind, c in self.mro(ci):
@@ -423,6 +445,8 @@ class Unit:
         self.stale = []            # (entry, attr, location): learned attribute read before assigned
         self.fnreg = {}            # id -> F alternative (functions stored in attributes)
         self.merged = {}           # merged container identity -> source identities
+        self.s_failclosed = []     # fail-closed fallbacks met while recording the structured IR
+        self.s_methods = []        # (method name, block) of the structured IR
 
     def var(self, hint):
         self.nvar += 1
@@ -475,10 +499,62 @@ class Interp:
         self.cur_node = None
         self.cur_mod = None
         self.must = None           # set of definitely assigned 'self.<attr>' keys or None
+        # structured attribute-state IR (coq/Model/Refit.v); None = not recorded in this pass
+        self.sb = None             # stack of blocks (lists of nodes); the last one is being filled
+        self.s_mute = 0
+        self.try_depth = 0
+        self.last_blk = []
 
     # ---- emission helpers
     def emit(self, *st):
         self.out.append(st)
+
+    # ---- structured IR (sub-claim (b)): nodes are tuples
+    #   ("Read", key, site) ("Assign", key, site) ("Del", key, site) ("Reset", key, site) ("ReadFitted", obj, site)
+    #   ("If", site, blk, blk) ("While", site, blk) ("Call", blk) ("Try", site, blk, blk)
+    #   ("Return",) ("Raise",) ("Break",) ("Continue",)
+    def s_on(self):
+        return self.sb is not None and not self.s_mute
+
+    def s_emit(self, *node):
+        if self.s_on():
+            self.sb[-1].append(node)
+
+    def s_site(self, node, reason):
+        return self.site(node, reason) if self.s_on() else 0
+
+    def k_site(self, node, reason, key):
+        """site of a statement of the structured IR that concerns attribute `key`"""
+        i = self.site(node, reason)
+        self.u.sites[i]["key"] = key
+        return i
+
+    def s_push(self):
+        if self.sb is not None:
+            self.sb.append([])
+
+    def s_pop(self):
+        return self.sb.pop() if self.sb is not None else []
+
+    def s_splice(self, blk):
+        if self.s_on():
+            self.sb[-1].extend(blk)
+
+    def s_read(self, key, node, reason="attribute read"):
+        if self.s_on():
+            self.s_emit("Read", key, self.k_site(node, reason, key))
+
+    def s_assign(self, key, node, reason="attribute assigned"):
+        if self.s_on():
+            self.s_emit("Assign", key, self.k_site(node, reason, key))
+
+    @staticmethod
+    def _sa(vals):
+        out = frozenset()
+        for v in vals:
+            if isinstance(v, R):
+                out |= v.sa
+        return out
 
     def site(self, node, reason):
         node = node if node is not None and hasattr(node, "lineno") else self.cur_node
@@ -523,7 +599,7 @@ class Interp:
                 t = self.u.var(hint + ".el")
                 self.emit("LoadAttr", t, self.u.attr(r.obj + ".*"))
                 self.emit("MayAlias", v, t)
-        return R(v, kind=kind)
+        return R(v, kind=kind, sa=self._sa(rs))
 
     def to_ref(self, v, hint="val"):
         if isinstance(v, R):
@@ -555,6 +631,11 @@ class Interp:
             if r.kind == "scalar":
                 continue
             self.emit("Write", r.var, self.site(node, reason))
+            if reason.startswith("random number generator"):
+                continue                   # T3: random_state objects are consumed by design, not learned state
+            for key in sorted(r.sa):       # the object held by an attribute is updated in place
+                self.s_read(key, node, "in-place update reads " + key)
+                self.s_assign(key, node, "in-place update of " + key)
 
     def fail_closed(self, vals, node, reason, hint="unk"):
         """unknown operation on vals: everything reachable may be overwritten, the result may be any of them"""
@@ -567,6 +648,8 @@ class Interp:
                 self.emit("Write", t, self.site(node, "fail-closed (element): " + reason))
         loc = "%s:%s" % (self.cur_mod, getattr(node, "lineno", 0))
         self.u.unknown.setdefault(reason, loc)
+        if self.s_on():
+            self.u.s_failclosed.append("%s at %s" % (reason, loc))
         return self.derived(rs, hint)
 
     # ---- containers / attributes
@@ -606,7 +689,10 @@ class Interp:
                 t = self.u.var(hint)
                 self.emit("LoadAttr", t, self.u.attr(key))
                 self.emit("MayAlias", t, v.var)
-                return self._typed_load(key, t)
+                res = self._typed_load(key, t)
+                if isinstance(res, R):
+                    res.sa = res.sa | v.sa
+                return res
             if v.kind == "scalar":
                 return v
             return self.derived([v], hint)
@@ -670,7 +756,11 @@ class Interp:
         self.emit("LoadAttr", t, self.u.attr(key))
         if self.must is not None and ov.obj == "self" and key not in self.must:
             self.u.stale.append((self.entry, name, "%s:%s" % (self.cur_mod, getattr(node or self.cur_node, "lineno", 0))))
-        return self._typed_load(key, t)
+        self.s_read(key, node, "read of " + key)
+        res = self._typed_load(key, t)
+        if isinstance(res, R) and res.kind != "scalar":
+            res.sa = res.sa | frozenset([key])
+        return res
 
     def store_attr(self, ov, name, val, node):
         key = ov.obj + "." + name
@@ -680,6 +770,7 @@ class Interp:
             self.must.add(key)
         if ov.obj == "self":
             self.stored_attrs.add(name)
+        self.s_assign(key, node, "assignment of " + key)
         self._fact_of(key, val)
         if isinstance(val, (K, L, Sup)) or val is None:
             return
@@ -724,7 +815,7 @@ class Interp:
                 uniq.append(r)
         if len(uniq) == 1:
             r = uniq[0]
-            return R(r.var, obj=r.obj, cls=r.cls, kind=r.kind if len(rs) == len(vals) else (r.kind))
+            return R(r.var, obj=r.obj, cls=r.cls, kind=r.kind if len(rs) == len(vals) else (r.kind), sa=self._sa(rs))
         m = self.u.var(hint)
         for r in uniq:
             self.emit("Alias", m, r.var)
@@ -753,7 +844,7 @@ class Interp:
         kind = uniq[0].kind if len(kinds) == 1 else None
         if kind is None and all(k and k.startswith("lib:") and k[4:] in LIBOBJ_CALL_PURE for k in kinds):
             kind = uniq[0].kind
-        return R(m, obj=obj, cls=cls, kind=kind)
+        return R(m, obj=obj, cls=cls, kind=kind, sa=self._sa(uniq))
 
     def merge_envs(self, envs):
         envs = [e for e in envs if e is not None]
@@ -845,6 +936,13 @@ class InterpExpr(Interp):
                         return a.val >= b.val
                 except TypeError:
                     return None
+            return None
+        if isinstance(node, ast.Call) and isinstance(node.func, ast.Name) and node.func.id == "hasattr" \
+                and "hasattr" not in fr.env and len(node.args) == 2 and isinstance(node.args[0], ast.Name) \
+                and isinstance(node.args[1], ast.Constant):
+            ov = fr.env.get(node.args[0].id)
+            if isinstance(ov, R) and ov.obj == "self" and not self.is_init and node.args[1].value in self.hyper:
+                return True           # constructor hyper-parameters are set by __init__ of this very class
             return None
         v = self.peek(node, fr)
         if isinstance(v, K) and not isinstance(v.val, tuple):
@@ -985,10 +1083,26 @@ class InterpExpr(Interp):
             return self.ev(node.body, fr)
         if t is False:
             return self.ev(node.orelse, fr)
-        return self.merge([self.ev(node.body, fr), self.ev(node.orelse, fr)], "ifexp")
+        self.s_push()
+        a = self.ev(node.body, fr)
+        b1 = self.s_pop()
+        self.s_push()
+        b = self.ev(node.orelse, fr)
+        b2 = self.s_pop()
+        if b1 or b2:
+            self.s_emit("If", self.s_site(node, "conditional expression"), b1, b2)
+        return self.merge([a, b], "ifexp")
 
     def ev_BoolOp(self, node, fr):
-        vals = [self.ev(v, fr) for v in node.values]
+        vals = []
+        for i, v in enumerate(node.values):
+            if i:
+                self.s_push()
+            vals.append(self.ev(v, fr))
+            if i:
+                blk = self.s_pop()      # short-circuit: evaluated on some paths only
+                if blk:
+                    self.s_emit("If", self.s_site(node, "short-circuit operand"), blk, [])
         return self.merge(vals, "boolop")
 
     def ev_UnaryOp(self, node, fr):
@@ -1038,6 +1152,16 @@ class InterpExpr(Interp):
                 pr = self.ix.find_prop(v.cls, name)
                 if pr is not None:
                     return self.inline(("func", pr[0], pr[1].mod, None, pr[1], v), CallArgs(), node, fr)
+                cp = self.ix.find_cprop(v.cls, name)
+                if cp is not None:
+                    # functools.cached_property: computed on first access, then kept in the instance dictionary
+                    cur = self.load_attr(v, name, node)
+                    self.s_push()
+                    val = self.inline(("func", cp[0], cp[1].mod, None, cp[1], v), CallArgs(), node, fr)
+                    self.store_attr(v, name, val, node)
+                    blk = self.s_pop()
+                    self.s_emit("If", self.s_site(node, "cached_property %s not computed yet" % name), blk, [])
+                    return self.merge([cur, val], name)
                 fm = self.ix.find_method(v.cls, name)
                 if fm is not None:
                     return F([("func", fm[0], fm[1].mod, None, fm[1], v)])
@@ -1098,6 +1222,7 @@ class InterpExpr(Interp):
         inner = Frame(fr.mod, dict(fr.env), fr.cls_def, fr.selfv, fr.fname, fr.in_init)
         inner.narrow = dict(fr.narrow)
         c = self.fresh("comp", obj="g@%s:%s:%s" % (fr.mod, node.lineno, node.col_offset))
+        self.s_push()
 
         def rec(gi):
             if gi == len(node.generators):
@@ -1117,7 +1242,12 @@ class InterpExpr(Interp):
                 for cond in g.ifs:
                     self.ev(cond, inner)
                 rec(gi + 1)
-        rec(0)
+        try:
+            rec(0)
+        finally:
+            blk = self.s_pop()
+        if blk:
+            self.s_emit("While", self.s_site(node, "comprehension"), blk)
         return c
 
     def ev_ListComp(self, node, fr):
@@ -1197,8 +1327,21 @@ class InterpCall(InterpExpr):
 
     def call_value(self, fv, ca, node, fr):
         if isinstance(fv, F):
-            res = [self.call_alt(a, ca, node, fr) for a in fv.alts]
-            return self.merge(res, "call") if len(res) > 1 else res[0]
+            if len(fv.alts) == 1:
+                return self.call_alt(fv.alts[0], ca, node, fr)
+            res, blks = [], []
+            for a in fv.alts:            # one of the alternatives is called
+                self.s_push()
+                try:
+                    res.append(self.call_alt(a, ca, node, fr))
+                finally:
+                    blks.append(self.s_pop())
+            if any(blks):
+                nest = blks[-1]
+                for b in reversed(blks[:-1]):
+                    nest = [("If", self.s_site(node, "which callable"), b, nest)]
+                self.s_splice(nest)
+            return self.merge(res, "call")
         if isinstance(fv, L):
             return self.call_lib(fv.dotted, ca, node, fr)
         if isinstance(fv, R) and fv.kind and fv.kind.startswith("lib:") and fv.kind[4:] in LIBOBJ_CALL_PURE:
@@ -1333,6 +1476,7 @@ class InterpCall(InterpExpr):
         self.stack.append(name)
         self.nodestack.append(fn)
         saved = (self.cur_node, self.cur_mod)
+        self.s_push()
         try:
             if isinstance(fn, ast.Lambda):
                 nf.returns.append(self.ev(fn.body, nf))
@@ -1347,6 +1491,9 @@ class InterpCall(InterpExpr):
             self.stack.pop()
             self.nodestack.pop()
             self.cur_node, self.cur_mod = saved
+            blk = self.s_pop()
+            if blk:
+                self.s_emit("Call", blk)
         rets = nf.returns
         if len(rets) > 1 and any(not (isinstance(r, K) and r.val is None) for r in rets):
             rets = [r for r in rets if not (isinstance(r, K) and r.val is None)] + \
@@ -1422,6 +1569,16 @@ class InterpCall(InterpExpr):
             if last in NP_FRESH or last == "where":
                 return self.fresh(last)
             return self.fail_closed(args, node, "unknown callee " + dotted)
+        if last == "check_is_fitted" and isinstance(a0, R) and a0.obj:
+            at = ca.get(1, "attributes", K(None))
+            names = [at.val] if isinstance(at, K) and isinstance(at.val, str) else \
+                [i.val for i in at.items if isinstance(i, K) and isinstance(i.val, str)] if isinstance(at, T) else None
+            if names:
+                for nm in names:
+                    self.s_read(a0.obj + "." + nm, node, "check_is_fitted consults " + nm)
+            elif self.s_on():            # any attribute with a trailing underscore
+                self.s_emit("ReadFitted", a0.obj, self.k_site(node, "check_is_fitted consults every fitted attribute", a0.obj + ".<any fitted attribute>"))
+            return K(None)
         if last in ("clone", "deepcopy"):
             return self.retaining([], last)
         if last in LIB_FRESH:
@@ -1522,6 +1679,7 @@ class InterpCall(InterpExpr):
         return self.fail_closed(args, node, "unknown builtin " + name)
 
     def note_read(self, ov, name, node):
+        self.s_read(ov.obj + "." + name, node, "hasattr consults " + name)
         if self.must is not None and ov.obj == "self" and ("self." + name) not in self.must:
             self.u.stale.append((self.entry, name, "%s:%s" % (self.cur_mod, getattr(node, "lineno", 0))))
 
@@ -1554,6 +1712,18 @@ class InterpCall(InterpExpr):
             return self.fresh(name, kind="scalar")
         cont = recv.obj is not None and recv.cls is None
         if name == "_validate_data":
+            if recv.obj and self.s_on():
+                # sklearn BaseEstimator._validate_data -> _check_feature_names / _check_n_features (T1)
+                rs = ca.get(None, "reset", K(True))
+                kn, kf = recv.obj + ".n_features_in_", recv.obj + ".feature_names_in_"
+                st_set = [("Assign", kn, self.k_site(node, "_validate_data(reset=True) sets n_features_in_", kn)),
+                          ("Reset", kf, self.k_site(node, "_validate_data(reset=True) resets feature_names_in_", kf))]
+                st_chk = [("Read", kf, self.k_site(node, "_validate_data(reset=False) consults feature_names_in_", kf)),
+                          ("Read", kn, self.k_site(node, "_validate_data(reset=False) consults n_features_in_", kn))]
+                if isinstance(rs, K):
+                    self.s_splice(st_set if rs.val else st_chk)
+                else:
+                    self.s_emit("If", self.site(node, "reset flag"), st_set, st_chk)
             cp = self.copy_flag(ca, False)
             X = ca.get(0, "X", K(None))
             y = ca.get(1, "y", K(None))
@@ -1638,6 +1808,9 @@ class Translator(InterpCall):
     def exec_block(self, stmts, fr):
         for s in stmts:
             self.cur_node, self.cur_mod = s, fr.mod
+            if self.try_depth and self.s_on():
+                # inside a try body any statement may raise (and be caught with the state reached so far)
+                self.s_emit("If", self.site(s, "statement inside try may raise"), [("Raise",)], [])
             m = getattr(self, "st_" + type(s).__name__, None)
             if m is None:
                 vals = [self.ev(c, fr) for c in ast.iter_child_nodes(s) if isinstance(c, ast.expr)]
@@ -1651,15 +1824,24 @@ class Translator(InterpCall):
     def st_Pass(self, s, fr):
         pass
 
-    st_Break = st_Continue = st_Global = st_Nonlocal = st_ClassDef = st_Pass
+    st_Global = st_Nonlocal = st_ClassDef = st_Pass
+
+    def st_Break(self, s, fr):
+        self.s_emit("Break")
+
+    def st_Continue(self, s, fr):
+        self.s_emit("Continue")
 
     def st_Delete(self, s, fr):
         # `del self.a` determines the attribute's state in this call (for the stale-read diagnostic)
         for t in s.targets:
-            if isinstance(t, ast.Attribute) and isinstance(t.value, ast.Name) and self.must is not None:
+            if isinstance(t, ast.Attribute) and isinstance(t.value, ast.Name):
                 ov = fr.env.get(t.value.id)
-                if isinstance(ov, R) and ov.obj == "self":
-                    self.must.add("self." + t.attr)
+                if isinstance(ov, R) and ov.obj:
+                    if self.s_on():
+                        self.s_emit("Del", ov.obj + "." + t.attr, self.k_site(t, "del " + t.attr, ov.obj + "." + t.attr))
+                    if ov.obj == "self" and self.must is not None:
+                        self.must.add("self." + t.attr)
 
     def st_Import(self, s, fr):
         for a in s.names:
@@ -1677,11 +1859,13 @@ class Translator(InterpCall):
 
     def st_Return(self, s, fr):
         fr.returns.append(self.ev(s.value, fr) if s.value is not None else K(None))
+        self.s_emit("Return")
         raise Terminated()
 
     def st_Raise(self, s, fr):
         if s.exc is not None:
             self.ev(s.exc, fr)
+        self.s_emit("Raise")
         raise Terminated()
 
     def st_Assign(self, s, fr):
@@ -1784,6 +1968,7 @@ class Translator(InterpCall):
         fr.narrow = dict(saved_narrow)
         for d in narrow or ():
             fr.narrow[d] = "scalar"
+        self.s_push()
         try:
             try:
                 self.exec_block(stmts, fr)
@@ -1792,6 +1977,7 @@ class Translator(InterpCall):
                 res = (None, self.must)
         finally:
             fr.env, self.must, fr.narrow = saved_env, saved_must, saved_narrow
+            self.last_blk = self.s_pop()
         return res
 
     def _hasattr_test(self, test, fr):
@@ -1806,7 +1992,32 @@ class Translator(InterpCall):
                 return "self." + str(test.args[1].value), neg
         return None, False
 
+    def _reset_pattern(self, s, fr):
+        """key when s is exactly `if hasattr(o, "a"): del o.a` (o a tracked object): a total reset of a"""
+        if s.orelse or len(s.body) != 1 or not isinstance(s.body[0], ast.Delete) or len(s.body[0].targets) != 1:
+            return None
+        t, d = s.test, s.body[0].targets[0]
+        if isinstance(t, ast.Call) and isinstance(t.func, ast.Name) and t.func.id == "hasattr" and "hasattr" not in fr.env \
+                and len(t.args) == 2 and isinstance(t.args[0], ast.Name) and isinstance(t.args[1], ast.Constant) \
+                and isinstance(d, ast.Attribute) and isinstance(d.value, ast.Name) and d.value.id == t.args[0].id \
+                and d.attr == t.args[1].value:
+            ov = fr.env.get(d.value.id)
+            if isinstance(ov, R) and ov.obj:
+                return ov.obj + "." + d.attr
+        return None
+
     def st_If(self, s, fr):
+        rkey = self._reset_pattern(s, fr) if self.s_on() else None
+        if rkey is None:
+            return self._st_If(s, fr)
+        self.s_emit("Reset", rkey, self.k_site(s, "guarded del of " + rkey, rkey))
+        self.s_mute += 1
+        try:
+            return self._st_If(s, fr)
+        finally:
+            self.s_mute -= 1
+
+    def _st_If(self, s, fr):
         t = self.truth(s.test, fr)
         hkey, hneg = self._hasattr_test(s.test, fr) if self.must is not None else (None, False)
         nstale = len(self.u.stale)
@@ -1817,12 +2028,14 @@ class Translator(InterpCall):
         nar = self.narrowing(s.test, fr)
         if t is True:
             e, m = self._branch(s.body, fr, fr.env, self.must, nar)
+            self.s_splice(self.last_blk)
             if e is None:
                 raise Terminated()
             fr.env, self.must = e, m
             return
         if t is False:
             e, m = self._branch(s.orelse, fr, fr.env, self.must)
+            self.s_splice(self.last_blk)
             if e is None:
                 raise Terminated()
             fr.env, self.must = e, m
@@ -1836,7 +2049,11 @@ class Translator(InterpCall):
             else:
                 mf = absent
         e1, m1 = self._branch(s.body, fr, fr.env, mt, nar)
+        b1 = self.last_blk
         e2, m2 = self._branch(s.orelse, fr, fr.env, mf)
+        b2 = self.last_blk
+        if b1 or b2:
+            self.s_emit("If", self.s_site(s, "if"), b1, b2)
         if e1 is None and e2 is None:
             raise Terminated()
         fr.env = self.merge_envs([e1, e2])
@@ -1861,13 +2078,14 @@ class Translator(InterpCall):
             elif isinstance(v, R):
                 m = self.u.var(n + ".loop")
                 self.emit("Alias", m, v.var)
-                fr.env[n] = R(m, obj=v.obj, cls=v.cls, kind=v.kind)
+                fr.env[n] = R(m, obj=v.obj, cls=v.cls, kind=v.kind, sa=v.sa)
                 loopvars[n] = fr.env[n]
         pre = dict(fr.env)
         must0 = self.must
         saved_env = fr.env
         fr.env = dict(pre)
         self.must = set(must0) if must0 is not None else None
+        self.s_push()
         try:
             bind()
             try:
@@ -1878,6 +2096,9 @@ class Translator(InterpCall):
         finally:
             fr.env = saved_env
             self.must = must0
+            blk = self.s_pop()
+            if blk:
+                self.s_emit("While", self.s_site(s, "loop"), blk)
         for n, lv in loopvars.items():
             pv = post.get(n)
             for r in self.refs(pv) if pv is not None else []:
@@ -1905,7 +2126,12 @@ class Translator(InterpCall):
     def st_Try(self, s, fr):
         pre = dict(fr.env)
         must0 = set(self.must) if self.must is not None else None
-        e_body, m_body = self._branch(s.body + s.orelse, fr, fr.env, self.must)
+        self.try_depth += 1
+        try:
+            e_body, m_body = self._branch(s.body + s.orelse, fr, fr.env, self.must)
+        finally:
+            self.try_depth -= 1
+        b_body, b_handlers = self.last_blk, []
         envs = [e_body]
         musts = [m_body] if e_body is not None else []
         start = self.merge_envs([pre, e_body]) if e_body is not None else pre
@@ -1916,9 +2142,15 @@ class Translator(InterpCall):
             if h.name:
                 henv[h.name] = self.fresh("exc")
             e, m = self._branch(h.body, fr, henv, must0)
+            b_handlers.append(self.last_blk)
             envs.append(e)
             if e is not None:
                 musts.append(m)
+        if self.s_on():
+            nest = b_handlers[-1] if b_handlers else []
+            for b in reversed(b_handlers[:-1]):
+                nest = [("If", self.site(s, "which handler"), b, nest)]
+            self.s_emit("Try", self.site(s, "try"), b_body, nest)
         live = [e for e in envs if e is not None]
         if not live:
             if s.finalbody:
@@ -2025,7 +2257,159 @@ def translate_class(ix, ci, label, passes=4):
             break
         facts = merged
     unit.stale = stale_reads(ix, ci, label, facts, unit)
+    unit.refit = refit_program(ix, ci, label, facts)
     return unit
+
+
+def refit_program(ix, ci, label, facts):
+    """structured attribute-state IR (coq/Model/Refit.v) of every method of the class except __init__:
+    the cold fit first (warm_start=False where fit has such a flag), then the unconstrained variants and
+    all other entry points -- they are the possible history of the object and define, in Coq, which
+    attributes are `learned`.  -> Unit with .s_methods = [(name, block)], .sites, .s_failclosed"""
+    su = Unit(ix, label, facts)
+    su.is_class = True
+    hyper = ix.ctor_params(ci)
+    su.hyper = hyper
+    methods = []
+    for name, fn, cdef in entry_methods(ix, ci):
+        if name == "__init__":
+            # not recorded (a fresh estimator is the state after __init__); run to register the functions and
+            # instances it stores in attributes
+            tr = Translator(su, "%s.__init__" % label, hyper=hyper, is_init=True)
+            selfv = tr.fresh("self", obj="self", cls=ci)
+            env = _bind_entry_params(tr, fn, su, name, {}, selfv)
+            try:
+                tr.exec_block(fn.body, Frame(cdef.mod, env, cdef, selfv, name))
+            except Terminated:
+                pass
+            su.init_stored = set(tr.stored_attrs)
+            continue
+        variants = [(name, {})]
+        if name == "fit":
+            a = fn.args
+            if any(p.arg == "warm_start" for p in list(a.args) + list(a.kwonlyargs)):
+                variants = [("fit", {"warm_start": False}), ("fit[warm_start=True]", {"warm_start": True})]
+        for vname, forced in variants:
+            tr = Translator(su, "%s.%s" % (label, vname), hyper=hyper, is_init=False)
+            tr.sb = [[]]
+            selfv = tr.fresh("self", obj="self", cls=ci)
+            env = _bind_entry_params(tr, fn, su, vname, forced, selfv)
+            tr.stack.append(name)
+            try:
+                tr.exec_block(fn.body, Frame(cdef.mod, env, cdef, selfv, name))
+            except Terminated:
+                pass
+            methods.append((vname, tr.sb[0]))
+    if not methods or methods[0][0] != "fit":
+        methods = []
+    su.s_methods = methods
+    su.s_keys = {}
+    return su
+
+
+# --------------------------------------------------------------------------- structured IR: numbering, Coq text
+def s_key(su, key):
+    if key not in su.s_keys:
+        su.s_keys[key] = len(su.s_keys) + 1
+    return su.s_keys[key]
+
+
+def s_collect_keys(su):
+    def walk(blk):
+        for n in blk:
+            if n[0] in ("Read", "Assign", "Del", "Reset"):
+                s_key(su, n[1])
+            elif n[0] == "If":
+                walk(n[2]); walk(n[3])
+            elif n[0] == "While":
+                walk(n[2])
+            elif n[0] == "Call":
+                walk(n[1])
+            elif n[0] == "Try":
+                walk(n[2]); walk(n[3])
+    for _, blk in su.s_methods:
+        walk(blk)
+
+
+def s_fitted_keys(su, obj):
+    pre = obj + "."
+    return sorted(k for k in su.s_keys if k.startswith(pre) and "." not in k[len(pre):]
+                  and k.endswith("_") and not k[len(pre):].startswith("__"))
+
+
+def s_expand(su, blk):
+    """numbered form of a block: ReadFitted expanded, keys -> positive numbers"""
+    out = []
+    for n in blk:
+        k = n[0]
+        if k in ("Read", "Assign", "Del", "Reset"):
+            out.append((k, su.s_keys[n[1]], n[2]))
+        elif k == "ReadFitted":
+            out += [("Read", su.s_keys[key], n[2]) for key in s_fitted_keys(su, n[1])]
+        elif k == "If":
+            out.append(("If", n[1], s_expand(su, n[2]), s_expand(su, n[3])))
+        elif k == "While":
+            out.append(("While", n[1], s_expand(su, n[2])))
+        elif k == "Call":
+            out.append(("Call", s_expand(su, n[1])))
+        elif k == "Try":
+            out.append(("Try", n[1], s_expand(su, n[2]), s_expand(su, n[3])))
+        else:
+            out.append(n)
+    return out
+
+
+def s_numbered(su):
+    """[(method name, numbered block)]; stable numbering of the attribute keys"""
+    if not su.s_keys:
+        s_collect_keys(su)
+    return [(name, s_expand(su, blk)) for name, blk in su.s_methods]
+
+
+def blk_coq(blk):
+    # right-nested CSeq (= cseq of the list; the list notation is slow to elaborate on large nested terms)
+    if not blk:
+        return "CSkip"
+    parts = [node_coq(n) for n in blk]
+    out = parts[-1]
+    for p in reversed(parts[:-1]):
+        out = "CSeq (%s) (%s)" % (p, out)
+    return out
+
+
+REFIT_HEAD = "Definition sn (p : positive) : nat := Pos.to_nat p.\n"
+
+
+def _site(i):
+    # sites are nat in the model; a unary literal of that size is slow to elaborate, so the generated file
+    # writes site i as `sn (i+1)` (binary positive, converted during evaluation); the reader subtracts 1
+    return "(sn %d)" % (i + 1)
+
+
+def node_coq(n):
+    k = n[0]
+    if k in ("Read", "Assign", "Del", "Reset"):
+        return "C%s %d %s" % (k, n[1], _site(n[2]))
+    if k == "If":
+        return "CIf %s (%s) (%s)" % (_site(n[1]), blk_coq(n[2]), blk_coq(n[3]))
+    if k == "While":
+        return "CWhile %s (%s)" % (_site(n[1]), blk_coq(n[2]))
+    if k == "Call":
+        return "CCall (%s)" % blk_coq(n[1])
+    if k == "Try":
+        return "CTry %s (%s) (%s)" % (_site(n[1]), blk_coq(n[2]), blk_coq(n[3]))
+    return "C" + k
+
+
+def refit_coq(su, idx):
+    """Coq definitions of one class: rcls_<idx> : cls"""
+    ms = s_numbered(su)
+    lines = []
+    for j, (name, blk) in enumerate(ms):
+        lines.append("Definition rm_%d_%d : cmd := %s." % (idx, j, blk_coq(blk)))
+    lines.append("Definition rcls_%d : cls := mkCls rm_%d_0 [%s]." % (
+        idx, idx, "; ".join("rm_%d_%d" % (idx, j) for j in range(1, len(ms)))))
+    return "\n".join(lines)
 
 
 def stale_reads(ix, ci, label, facts, unit):
